@@ -71,8 +71,14 @@ def begin_keywords_model(ctx):
             if b_.get('k') == 'mcall' and b_['m'] == 'push':
                 direct += 1
             else:
-                out['why'] = 'arm "%s" pushes inside a larger expression' % lit
-                return out
+                # a push wrapped in a condition: state-dependent conditions are a defect, anything else is not modelled
+                t_ = sx.render(b_).replace(' ', '')
+                if b_.get('k') in ('if', 'block') and any(w in t_ for w in STATE_WORDS):
+                    direct += 1
+                    out['state_cond'] = sx.render(b_)[:80]
+                else:
+                    out['why'] = 'arm "%s" pushes inside a larger expression' % lit
+                    return out
     all_pushes = [n for b_ in bodies for n in sx.walk(b_) if n.get('k') == 'mcall' and n['m'] == 'push']
     out['pushes'] = len(all_pushes) if direct == 0 else 1
     if direct and direct != len(out['map']):
@@ -232,7 +238,8 @@ def run(ctx):
                     'is_keyword must test equality of the whole lexeme; it uses .%s()' % partial[0]['m'])
         elif not cmp_ok:
             k2.undecided('%s:is_keyword:compare' % g.crate, '%s/%s:%d' % (g.crate, ik.file, ik.line), 'is_keyword: how the lexeme is compared with the table is not recognised')
-    k2.floor('dispatch_arms', k2.instances, 18)
+    if not getattr(k2, 'undecided_list', []):
+        k2.floor('dispatch_arms', k2.instances, 18)
 
     # ------------------------------------------------------------------ K3
     k3 = RuleResult('K3', 'version_specifier: one arm per specifier of the standard, keyword("S") paired with begin_keywords("S")')
@@ -285,17 +292,48 @@ def run(ctx):
         if f.name in K4_EXEMPT:
             k4.notes.append('%s exempt: %s' % (f.name, K4_EXEMPT[f.name]))
             continue
-        t = lex.tail
-        ok = False
-        if t[0] == 'ok' and len(t) > 3 and t[3].get('neg'):
-            guard = t[3]['guard']
-            if sx.is_call(guard, 'is_keyword') and len(guard['args']) == 1:
-                x = sx.strip_ref(guard['args'][0])
-                if sx.is_path(x) and sx.is_call(t[2], 'into_locate') and sx.is_path(t[2]['args'][0], x['p']):
-                    ok = True
-        if not ok:
-            k4.fail('%s:%s:no-keyword-test' % (g.crate, lex.name), '%s/%s:%d' % (g.crate, lex.file, lex.line),
-                    '%s (used by %s to build %s) does not refuse reserved words: expected `if is_keyword(&X) { Err(..) } else '
-                    '{ Ok((s, into_locate(X))) }` on the whole lexeme X' % (lex.name, f.name, node['p']))
+        body = lex.item['body']
+        kw_calls = [n for n in sx.walk(body) if sx.is_call(n, 'is_keyword') and len(n['args']) == 1]
+        locs = [n for n in sx.walk(body) if sx.is_call(n, 'into_locate') and len(n['args']) == 1]
+        where_lex = '%s/%s:%d' % (g.crate, lex.file, lex.line)
+        if not kw_calls:
+            k4.fail('%s:%s:no-keyword-test' % (g.crate, lex.name), where_lex,
+                    '%s (used by %s to build %s) never asks is_keyword: reserved words are accepted as identifiers' % (lex.name, f.name, node['p']))
+            continue
+        if len(kw_calls) != 1 or len(locs) != 1:
+            k4.undecided('%s:%s:keyword-test-shape' % (g.crate, lex.name), where_lex, '%s: %d is_keyword calls / %d into_locate calls' % (lex.name, len(kw_calls), len(locs)))
+            continue
+        x = sx.render(sx.strip_ref(kw_calls[0]['args'][0])).replace(' ', '')
+        y = sx.render(sx.strip_ref(locs[0]['args'][0])).replace(' ', '')
+        if x != y:
+            k4.fail('%s:%s:keyword-test-other-value' % (g.crate, lex.name), where_lex,
+                    '%s tests is_keyword(%s) but converts `%s` to the token: the reserved-word test is not on the whole lexeme' % (lex.name, x, y))
+            continue
+        # the successful exit (the Ok containing into_locate) must be on the NOT-keyword side of a test of that call
+        verdict = None
+        for n in sx.walk(body):
+            if n.get('k') != 'if' or n['c'].get('k') == 'let':
+                continue
+            c = n['c']
+            neg = c.get('k') == 'unary' and c['op'] == '!'
+            core = c['e'] if neg else c
+            if core is not kw_calls[0]:
+                continue
+            in_then = any(z is locs[0] for z in sx.walk(n['t']))
+            in_else = 'e' in n and any(z is locs[0] for z in sx.walk(n['e']))
+            after = not in_then and not in_else
+            then_exits = any(z.get('k') == 'return' for z in sx.walk(n['t'])) or \
+                (n['t']['stmts'] and n['t']['stmts'][-1]['k'] == 'expr' and not n['t']['stmts'][-1].get('semi') and 'e' in n)
+            if neg:
+                verdict = 'ok' if in_then else ('wrong' if in_else else ('wrong' if after and then_exits else None))
+            else:
+                verdict = 'ok' if in_else or (after and then_exits) else ('wrong' if in_then else None)
+        if verdict == 'ok':
+            continue
+        if verdict == 'wrong':
+            k4.fail('%s:%s:keyword-test-inverted' % (g.crate, lex.name), where_lex,
+                    '%s returns the identifier on the is_keyword side of the test' % lex.name)
+        else:
+            k4.undecided('%s:%s:keyword-test-shape' % (g.crate, lex.name), where_lex, '%s: how the is_keyword test guards the successful exit is not recognised' % lex.name)
     k4.floor('identifier_constructors', k4.instances, 3)
     return [k1, k2, k3, k4]
